@@ -2,6 +2,7 @@
 // Input:  model <scenario lines> end   then query commands (one per line), see below.
 // All floating-point output is hex floats; one record per line.
 #include "ed_common.h"
+#include <typeinfo>
 #include <pomerol/TwoParticleGFContainer.h>
 using namespace Pomerol;
 
@@ -37,6 +38,27 @@ static void dump_op(const char* kind, int idx, const FieldOperator& op) {
     printf("\n");
     for (FieldOperator::BlocksBimap::left_const_iterator it = bm.left.begin(); it != bm.left.end(); ++it)
         dump_sparse("OPMAT", kind, idx, op.getPartFromLeftIndex(it->first));
+}
+
+// OPCOPY <kind> <idx> OK | DIFF <what>: a copy of a computed field operator against the object it was copied from
+static void copy_cmp(const char* kind, int idx, const FieldOperator& a, const FieldOperator& b) {
+    try {
+        if (b.Status != a.Status) { printf("OPCOPY %s %d DIFF status-%d-vs-%d\n", kind, idx, int(b.Status), int(a.Status)); return; }
+        const FieldOperator::BlocksBimap& ma = a.getBlockMapping();
+        const FieldOperator::BlocksBimap& mb = b.getBlockMapping();
+        if (ma.size() != mb.size()) { printf("OPCOPY %s %d DIFF blockmap-size-%ld-vs-%ld\n", kind, idx, long(mb.size()), long(ma.size())); return; }
+        FieldOperator::BlocksBimap::left_const_iterator ia = ma.left.begin(), ib = mb.left.begin();
+        for (; ia != ma.left.end(); ++ia, ++ib) {
+            if (ia->first != ib->first || ia->second != ib->second) { printf("OPCOPY %s %d DIFF blockmap-entry\n", kind, idx); return; }
+            RowMajorMatrixType d = b.getPartFromLeftIndex(ia->first).getRowMajorValue() - a.getPartFromLeftIndex(ia->first).getRowMajorValue();
+            double mx = 0;
+            for (int r = 0; r < d.outerSize(); ++r) for (RowMajorMatrixType::InnerIterator it(d, r); it; ++it) mx = std::max(mx, std::abs(it.value()));
+            if (mx != 0) { printf("OPCOPY %s %d DIFF part-left-%d-maxdiff-%s\n", kind, idx, int(ia->first), pv::hexd(mx).c_str()); return; }
+        }
+        printf("OPCOPY %s %d OK\n", kind, idx);
+    } catch (std::exception& ex) {
+        printf("OPCOPY %s %d DIFF exception-%s\n", kind, idx, typeid(ex).name());
+    }
 }
 
 static void dump_model(const std::string& upto) {
@@ -153,6 +175,21 @@ int main(int argc, char* argv[]) {
                 printf("%s %d %d %d", c == "gf" ? "GCOPY" : "GCCOPY", i, j, int(gcopy.isVanishing()));
                 for (int k = 0; k < nz; ++k) printf(" %s", pv::hexc(gcopy(ComplexType(D(t[4 + 2 * k]), D(t[5 + 2 * k])))).c_str());
                 printf("\n");
+                // the same copy after prepare(); compute() on it (a copy of a computed object is a computed object: both calls
+                // must leave it alone -- a copy that lost its status would build its parts a second time)
+                gcopy.prepare(); gcopy.compute();
+                printf("%s %d %d %d", c == "gf" ? "GCOPYRUN" : "GCCOPYRUN", i, j, int(gcopy.isVanishing()));
+                for (int k = 0; k < nz; ++k) printf(" %s", pv::hexc(gcopy(ComplexType(D(t[4 + 2 * k]), D(t[5 + 2 * k])))).c_str());
+                printf("\n");
+                if (c == "gf") {
+                    // a copy taken BEFORE prepare() and run afterwards (a vector of objects filled first, evaluated later)
+                    GreensFunction g0(*ed->S, *ed->H, ed->Ops->getAnnihilationOperator(i), ed->Ops->getCreationOperator(j), *ed->rho);
+                    GreensFunction g1(g0);
+                    g1.prepare(); g1.compute();
+                    printf("GCOPY0 %d %d %d", i, j, int(g1.isVanishing()));
+                    for (int k = 0; k < nz; ++k) printf(" %s", pv::hexc(g1(ComplexType(D(t[4 + 2 * k]), D(t[5 + 2 * k])))).c_str());
+                    printf("\n");
+                }
             }
             delete own;
         } else if (c == "gfn") {
@@ -227,6 +264,7 @@ int main(int argc, char* argv[]) {
             QuadraticOperator A(*ed->Idx, *ed->S, *ed->H, i, j);
             A.prepare(); A.compute();
             dump_op("quad", i * 100 + j, A);
+            { QuadraticOperator A2(A); copy_cmp("quad", i * 100 + j, A, A2); }
         } else if (c == "opsingle") {
             // operators computed one by one (not through the container)
             int i = L(t[1]);
@@ -234,6 +272,10 @@ int main(int argc, char* argv[]) {
             AnnihilationOperator cc(*ed->Idx, *ed->S, *ed->H, i); cc.prepare(); cc.compute();
             dump_op("cdag1", i, cx);
             dump_op("c1", i, cc);
+            // copies of the computed operators (pass by value, std::vector<CreationOperator>): a copy must be the same operator in
+            // the same state -- same block map, same stored parts
+            { CreationOperator cx2(cx); copy_cmp("cdag1", i, cx, cx2); }
+            { AnnihilationOperator cc2(cc); copy_cmp("c1", i, cc, cc2); }
         } else if (c == "susc") {
             // susc <a> <b> <c> <d> <mode> <n...>  A = c^+_a c_b, B = c^+_c c_d;
             // mode 0: no subtraction, 1: subtractDisconnected(), 2: (aveA, aveB) from EnsembleAverage objects, 3: explicit numbers computed from EnsembleAverage
